@@ -362,7 +362,10 @@ String Date::toString(Date::Format fmt, bool utc) const
 {
 	if (_t != _t)
 		return "?";
-	DateData d = calc(_t + (utc ? 0 : localOffset()));
+	double t = _t + (utc ? 0 : localOffset());
+	if (fmt == FULL) // round once, so that seconds and milliseconds come from the same value
+		t = floor(t * 1000 + 0.5) / 1000;
+	DateData d = calc(t);
 	String   s;
 	switch (fmt)
 	{
@@ -371,7 +374,7 @@ String Date::toString(Date::Format fmt, bool utc) const
 		break;
 	case FULL:
 		s = String::f("%04i-%02i-%02iT%02i:%02i:%02i.%03i", d.year, d.month, d.day, d.hours, d.minutes, d.seconds,
-		              int(1000 * fract(_t) + 0.5) % 1000);
+		              int(1000 * fract(t) + 0.5) % 1000);
 		break;
 	case SHORT:
 		s = String(15, "%04i%02i%02iT%02i%02i%02i", d.year, d.month, d.day, d.hours, d.minutes, d.seconds);
